@@ -12,7 +12,7 @@ import (
 )
 
 func init() {
-	Register(&Scenario{Prop: "C14", Name: "addresses", Run: scenC14, Weight: 1,
+	Register(&Scenario{Prop: "C14", Name: "addresses", Run: scenC14, SoftParks: true, Weight: 1,
 		Rule: "2-3 peers with distinct identities and separate block stores; 3-8 (thorough 3-16) databases whose names come from a segment grammar {ascii, unicode, space, empty, '.', '..', nested, dotted, CID-looking segments of addresses created earlier in the same run}, any registered type, explicit write lists or the creator default; for every input DetermineAddress on every peer, address.Parse(String()) round trip, pairwise distinctness of addresses of distinct inputs; Create on one peer and Open on another through the simulated exchange under delay, loss until heal, or a virtual-time timeout: Open fails or yields the creation type and write list; Create over an existing local database (also after a restart, and after an overwriting Create that failed half-way under local read errors) must be refused without Overwrite and the database must still open LocalOnly; Open(LocalOnly) of an unknown database must be refused; non-trivial = >=3 accepted names, >=1 remote open that succeeded and >=1 name with a special segment"})
 }
 
